@@ -24,6 +24,18 @@ def shim_overlay(workdir):
     return out
 
 
+def reg_shim_overlay(workdir):
+    """registry.go built with the yielding sync shim (import line only)."""
+    repo = os.environ.get("HW_REPO", "/repo")
+    mod = "github.com/anthdm/hollywood/internal/vshim"
+    src = open(os.path.join(repo, "actor/registry.go")).read()
+    new = re.sub(r'^(\s*)"sync"\s*$', r'\1sync "%s/shimsync"' % mod, src, flags=re.M)
+    dst = os.path.join(workdir, "shim_actor_registry.go")
+    with open(dst, "w") as f:
+        f.write(new)
+    return {os.path.join(repo, "actor/registry.go"): dst}
+
+
 _SCHED_RULE = ("sched: real inbox.go+ringbuffer.go under the deterministic scheduler; systematic enumeration by iterative preemption "
                "bounding over 6 small configurations (1-2 senders x 1-2 messages, capacity 1-2, batch 1/2/4096, with and without a Stop) plus seeded "
                "random schedules over 1-3 senders x 1-4 messages, capacity 1..8, batch 1/2/3/4096; every execution is replayed step by step in the "
@@ -46,6 +58,13 @@ _PROC_ASSUME = ["the receiver never panics while handling Stopped (outside every
                 "batches are offered to Invoke one after the other while the inbox is open, as the worker loop does (interleaving with senders is C01-C03)"]
 
 PROPS = {
+    "C10": dict(lean_modules=["HW.Props.C10"], facts=True,
+                streams=[dict(name="reg", pkg="actor", test="TestVerifReg", shrink_key="ops"),
+                         dict(name="regsched", pkg="actor", test="TestVerifRegSched", shrink_key="sched", extra_overlay=reg_shim_overlay)],
+                rule="reg: seeded random histories (2-11 ops over 1-3 ids) of Spawn/Stop/Poison/GetPID/Send through the real Engine with real actors, compared op by op with the id->actor map; "
+                     "regsched: real registry.go under the deterministic scheduler: ALL interleavings of 6 small programs (2-3 threads, concurrent SpawnProc of one id, spawn/remove/respawn) plus seeded random "
+                     "programs and schedules, replayed step by step in the model; non-trivial = a duplicate spawn or a stop of a live actor (reg), >= 2 adds (regsched); distinct = distinct inputs",
+                assumptions=["sync.RWMutex mutual exclusion; each Registry method is one critical section (regenerated fact, also exercised: the shim yields at every lock acquisition)"]),
     "C04": dict(lean_modules=["HW.Props.C04"], streams=[_PROC_STREAM], rule=_PROC_RULE, assumptions=_PROC_ASSUME, spec_relevant=r"FAIL:(\S*C04|harness)"),
     "C05": dict(lean_modules=["HW.Props.C05"], streams=[_PROC_STREAM], rule=_PROC_RULE, assumptions=_PROC_ASSUME, spec_relevant=r"FAIL:(\S*C05|harness)"),
     "C06": dict(lean_modules=["HW.Props.C06"], facts=True, streams=[_PROC_STREAM], rule=_PROC_RULE, assumptions=_PROC_ASSUME, spec_relevant=r"FAIL:(\S*C06|harness)"),
@@ -53,8 +72,9 @@ PROPS = {
     "C13": dict(lean_modules=["HW.Props.C13"], streams=[_PROC_STREAM], rule=_PROC_RULE, assumptions=_PROC_ASSUME, spec_relevant=r"FAIL:(\S*C13|harness)"),
     "C01": dict(lean_modules=["HW.Props.C01"], facts=True, streams=[_SCHED_STREAM], rule=_SCHED_RULE, assumptions=_SCHED_ASSUME,
                 spec_relevant=r"FAIL:(C01|C03|harness)"),
-    "C02": dict(lean_modules=["HW.Props.C02"], facts=True, streams=[_SCHED_STREAM], rule=_SCHED_RULE, assumptions=_SCHED_ASSUME,
-                spec_relevant=r"FAIL:(C02|harness)"),
+    "C02": dict(lean_modules=["HW.Props.C02"], facts=True, streams=[_SCHED_STREAM, _PROC_STREAM], rule=_SCHED_RULE + " || " + _PROC_RULE,
+                assumptions=_SCHED_ASSUME + ["'no inbox.Start after inbox.Stop' is checked on the process stream (HW.Proc.noReopen)"],
+                spec_relevant=r"FAIL:(\S*C02|harness)"),
     "C03": dict(lean_modules=["HW.Props.C03"], facts=True, streams=[_SCHED_STREAM], rule=_SCHED_RULE, assumptions=_SCHED_ASSUME,
                 spec_relevant=r"FAIL:(C03|harness)"),
     "C14": dict(
@@ -184,5 +204,14 @@ MANIFEST_TEXT = {
         design_ref="DESIGN.md section 4, C13",
         note="Trusted: Lean kernel; middleware functions are modelled as enter/exit markers (a middleware that does not call next is user behaviour outside the property).",
         technique="Lean 4 induction on the chain + invariant over the process semantics + trace-level differential correspondence",
+    ),
+    "C10": dict(
+        text="Machine-checked: for every sequence of add/remove/get steps (hence every interleaving of concurrent Spawn/SpawnChild/Stop callers, each Registry method being one critical section) "
+             "the registry holds at most one entry per id; a duplicate add changes nothing and never starts the newcomer; of any number of adds of a free id exactly one wins; after remove the id is free again and "
+             "GetPID answers exactly while registered. Tied to the code by (a) sequential Engine histories incl. a spawn inside another actor's graceful-drain window, (b) ALL interleavings of small concurrent "
+             "SpawnProc/Remove/get programs on the real registry.go under a deterministic scheduler, replayed step by step in the model, (c) regenerated lock-shape facts.",
+        design_ref="DESIGN.md section 4, C10",
+        note="Trusted: Lean kernel; sync.RWMutex; the identification 'one critical section = one atomic step' (fact + shimmed exploration); SpawnChild goes through the same SpawnProc/add path.",
+        technique="Lean 4 invariant + refinement to an id->actor map over all op sequences + schedule-level and history-level differential correspondence",
     ),
 }
